@@ -65,5 +65,32 @@ class GridHolder:
     by_name: Annotated[Dict[str, Grid], MinProperties(1)]
 
 
+def _field_positions():
+    """every kind of constraint annotation (incl. the unhashable DependentRequired) as a FIELD of a dataclass -- required, with a
+    rendered None default, with a default_factory -- and inside containers of a field: the builder is total for them all"""
+    from mashumaro.jsonschema.annotations import DependentRequired
+    dep = Annotated[Dict[str, int], DependentRequired({"a": {"b"}})]
+    kinds = [("MaxItems", Annotated[List[int], MaxItems(3)], [1, 2]), ("Minimum", Annotated[int, Minimum(0)], 1),
+             ("MaxLength", Annotated[str, MaxLength(4)], "ab"), ("MaxProperties", Annotated[Dict[str, int], MaxProperties(3)], {"a": 1}),
+             ("DependentRequired", dep, {"a": 1, "b": 2}), ("UniqueItems", Annotated[List[int], UniqueItems(True)], [1, 2])]
+    out = []
+    for kname, ann, val in kinds:
+        mutable = isinstance(val, (list, dict))
+        try:
+            optann = Optional[ann]
+        except TypeError:              # typing cannot build a Union around unhashable metadata: that spelling does not exist
+            optann = ann
+        ns = {"__annotations__": {"req": ann, "inlist": List[ann], "indict": Dict[str, ann], "opt": optann, "nonedflt": ann,
+                                  "fac" if mutable else "dflt": ann, "intuple": Tuple[ann, int]},
+              "opt": None, "nonedflt": None, "intuple": dataclasses.field(default_factory=lambda v=val: (v, 1))}
+        ns["fac" if mutable else "dflt"] = dataclasses.field(default_factory=lambda v=val: type(v)(v)) if mutable else val
+        cls = dataclasses.dataclass(type("CF_" + kname, (), ns))
+        import copy
+        inst = cls(req=copy.deepcopy(val), inlist=[copy.deepcopy(val)], indict={"k": copy.deepcopy(val)}, opt=copy.deepcopy(val), nonedflt=copy.deepcopy(val))
+        out.append((f"dataclass fields carrying {kname}", cls, [inst]))
+        out.append((f"List of dataclass with {kname} fields", List[cls], [[inst]]))
+    return out
+
+
 _G = Grid(rows=[[1, 2, 3], [4, 5, 6]], index={"k": {"a": 1, "b": 2}}, triples=[(1, 2, 3), (4, 5, 6)], small=3, names=["ab", "c", "d"])
-SUBJECTS = _subjects() + [("Grid", Grid, [_G, Grid(rows=[])]), ("GridHolder", GridHolder, [GridHolder([_G], {"g": _G})])]
+SUBJECTS = _subjects() + _field_positions() + [("Grid", Grid, [_G, Grid(rows=[])]), ("GridHolder", GridHolder, [GridHolder([_G], {"g": _G})])]
